@@ -328,7 +328,7 @@ func c17Check(env *core.Env, cc core.Case) core.Verdict {
 		if done, vv := loud(r, before); done {
 			return vv
 		}
-		re, err := regexp.Compile(string(r.Stdout))
+		re, err := regexp.Compile("^(?:" + string(r.Stdout) + ")$")
 		if err != nil {
 			return core.Viol("invalid-output:generate-include-many", "generate printed something that is not a regex: %v", err)
 		}
